@@ -53,6 +53,23 @@ func evalC13(c c13Case) *Failure {
 		conn.Store(tokenKey, tok)
 		return redis.NewOKMessage(), nil
 	})
+	srv.RegisterExexutor("REMEMBERONCE", func(conn *redis.Conn, cmd string, args redis.Arguments) (*redis.Message, error) {
+		// get-or-create: the value is attached only if the connection has none yet
+		tok, err := args.NextString()
+		if err != nil {
+			return nil, err
+		}
+		conn.LoadOrStore(tokenKey, tok)
+		return redis.NewOKMessage(), nil
+	})
+	srv.RegisterExexutor("REPLACE", func(conn *redis.Conn, cmd string, args redis.Arguments) (*redis.Message, error) {
+		tok, err := args.NextString()
+		if err != nil {
+			return nil, err
+		}
+		conn.Swap(tokenKey, tok)
+		return redis.NewOKMessage(), nil
+	})
 	srv.RegisterExexutor("FORGET", func(conn *redis.Conn, cmd string, args redis.Arguments) (*redis.Message, error) {
 		// the application drops everything it has stored on the connection (whole-map operations)
 		conn.Range(func(key, value any) bool {
@@ -122,7 +139,7 @@ func evalC13(c c13Case) *Failure {
 		name := strings.ToUpper(string(*step.Req[0]))
 		desc := fmt.Sprintf("step %d (c%d: %s) answered %s", si, step.Conn, reqPtrString(step.Req), reply)
 		newCalls := rec.Snapshot()[before:]
-		if !cmdspec.Has(name) && name != "REMEMBER" && name != "FORGET" {
+		if !cmdspec.Has(name) && name != "REMEMBER" && name != "FORGET" && name != "REMEMBERONCE" && name != "REPLACE" {
 			// a command this harness has no grammar for (registered by the server under test): what it shows its
 			// handler calls is its own business, but it must not run unauthorized and must leave the connection's state alone
 			if !me.auth && len(newCalls) > 0 {
@@ -178,6 +195,17 @@ func evalC13(c c13Case) *Failure {
 					return failf("c13|remember-refused", "%s: %s", what, desc)
 				}
 				me.token = string(*step.Req[1])
+			} else if !reply.IsError() {
+				return failf("c13|remember-unauthorized", "%s: %s on an unauthorized connection", what, desc)
+			}
+		case "REMEMBERONCE", "REPLACE":
+			if me.auth {
+				if !reply.Equal(resp.S("OK")) {
+					return failf("c13|remember-refused", "%s: %s", what, desc)
+				}
+				if name == "REPLACE" || me.token == "" {
+					me.token = string(*step.Req[1])
+				}
 			} else if !reply.IsError() {
 				return failf("c13|remember-unauthorized", "%s: %s on an unauthorized connection", what, desc)
 			}
@@ -464,9 +492,14 @@ sys:
 			case 4:
 				r = []*resp.Bin{bp("REMEMBER"), bp(fmt.Sprintf("t%d-%d", who, i))}
 			case 5:
-				if rapid.Bool().Draw(rt, "forget") {
+				switch rapid.IntRange(0, 3).Draw(rt, "userdata") {
+				case 0:
 					r = []*resp.Bin{bp("FORGET")}
-				} else {
+				case 1:
+					r = []*resp.Bin{bp("REMEMBERONCE"), bp(fmt.Sprintf("o%d-%d", who, i))}
+				case 2:
+					r = []*resp.Bin{bp("REPLACE"), bp(fmt.Sprintf("r%d-%d", who, i))}
+				default:
 					r = []*resp.Bin{bp("REMEMBER"), bp(fmt.Sprintf("t%d-%d", who, i))}
 				}
 			default:
